@@ -53,7 +53,7 @@ REQUIRED_MONITORS = ["propagate_returns_seen", "r3_comparisons", "ladder_levels"
                      "after_hops_frustrated", "after_trivial_relabels", "after_isolation_rows_compared",
                      "tully_steps", "tully_hops_accepted"]
 CASE_TIMEOUT = 600.0
-BUDGET_S = {"quick": 200, "thorough": 1700}
+BUDGET_S = {"quick": 220, "thorough": 1700}
 MIN_NONTRIVIAL = 10
 
 # ---- tolerances (derivations in the final report / DESIGN section 4) ---------------------------------------------
@@ -422,7 +422,6 @@ def _check_g(acc, dyn, ncalls=1, label="prop"):
             # the bound 1 is attained (renormalised rows): the margin is the excess over it against the 1e-12 allowance
             acc.margin("g_max_excess_over_1", max(float(g.max()) - 1.0, 0.0), 1e-12)
             acc.margin("g_rowsum_excess_over_1", max(float(g.sum(axis=1).max()) - 1.0, 0.0), 1e-12)
-            acc.margin("g_min_below_0", max(-float(g.min()), 0.0), 1e-300)
             if float(g.sum(axis=1).max()) > 1.0 - 1e-9:
                 acc.count("g_rows_renormalised", int((g.sum(axis=1) > 1.0 - 1e-9).sum()))
         hop = t >= 0
@@ -618,6 +617,13 @@ def _fsum(a):
     return math.fsum(np.asarray(a, float).ravel().tolist())
 
 
+def _is_tie(v, d):
+    """mechanism predicate of the tie: v.d vanishes to round-off (exactly zero, or a float64 sum of the products that
+    can round to 0.0 in some summation order), i.e. |sum v_i d_i| <= 8 eps sum |v_i d_i|"""
+    pr = np.asarray(v, float) * np.asarray(d, float)
+    return bool(abs(_fsum(pr)) <= 8 * EPS * _fsum(np.abs(pr)))
+
+
 def _rescale_oracle(acc, v0, v1, ok, d_eff, m, minv, dE, K, row, tag, extra, check_others=True):
     """judge one _rescale_velocity_along_nac outcome on row `row`.
     v0/v1 [nmol,molsize,3] before/after, d_eff [molsize,3] the coupling vector in the direction used (its sign is
@@ -632,7 +638,7 @@ def _rescale_oracle(acc, v0, v1, ok, d_eff, m, minv, dE, K, row, tag, extra, che
     disc, small, large = tdse.rescale_roots(vd, D2, c)
     scale = vd * vd + abs(2.0 * c * D2)
     band = 1e-9 * scale
-    tie = bool(np.sum(vb * d_eff) == 0.0 and vd == 0.0)
+    tie = _is_tie(vb, d_eff)
     mech = MECH_TIE if tie else None
     others = [r for r in range(v0.shape[0]) if r != row]
     if check_others and others and not np.array_equal(v0[others].view(np.int64), v1[others].view(np.int64)):
@@ -981,8 +987,15 @@ def _run_after(case):
                 for i in range(ns):
                     expect[p[i]] = pm[i]
                 if not _beq(expect, pf):
-                    acc.violate("relabel-amplitudes-follow-their-state", mech, row=b, planned=p,
-                                swap_to=None if res["swap"] is None else res["swap"][b].tolist())
+                    inv = np.empty_like(pm)
+                    for i in range(ns):
+                        inv[i] = pm[p[i]]
+                    if _beq(inv, pf):  # exactly the inverse relabelling: a different mechanism from the cycle defect
+                        acc.violate("relabel-applied-the-wrong-way-round", None, row=b, planned=p,
+                                    swap_to=None if res["swap"] is None else res["swap"][b].tolist())
+                    else:
+                        acc.violate("relabel-amplitudes-follow-their-state", mech, row=b, planned=p,
+                                    swap_to=None if res["swap"] is None else res["swap"][b].tolist())
                 else:
                     acc.margin("relabel_norm_change", abs(float(popf.sum() - popm.sum())), 1e-14)
         exp_act[b] = p[int(mid["act"][b])]
@@ -1007,7 +1020,7 @@ def _run_after(case):
             acc.violate("hop-starts-from-active-state", None, row=b, logged_from=fr, active=int(exp_act[b]))
         out = _rescale_oracle(acc, mid["vel"], fin["vel"], ok, d_eff, inp["m"][b], 1.0 / inp["m"][b], dE, K, b, "after",
                               {"scenario": sc, "regime": regime}, check_others=False)
-        tie = bool(np.sum(mid["vel"][b] * d_eff) == 0.0)
+        tie = _is_tie(mid["vel"][b], d_eff)
         mech = MECH_TIE if tie else None
         if ok:
             acc.count("after_hops_accepted")
